@@ -493,7 +493,7 @@ class Process:
             real = self._proc_basic_info()[proc_info_map['gid']]
             effective = self._proc_basic_info()[proc_info_map['egid']]
             saved = None
-        return _common.puids(real, effective, saved)
+        return _common.pgids(real, effective, saved)
 
     @wrap_exceptions
     def cpu_times(self):
